@@ -50,7 +50,16 @@ CheckerScenarios(p) ==
     <<OpsOp(p), L("create", "keys", <<KEcPub>>), CNewOp, CSetKeyOp("none", 0), CClaimSetOp("aud", "x"), ForgeOp(0, Good(KEcPub, "ES256")), VerifyOp(SlotTok(0))>>,
     <<OpsOp(p), L("create", "keys", <<KOct>>), CNewOp, CSetKeyOp("HS256", 0), ForgeOp(0, Tok("none", <<>>, <<>>, EmptySig)), VerifyOp(SlotTok(0))>>,
     <<OpsOp(p), CNewOp, ForgeOp(0, Tok("none", <<>>, <<StrM("sub", "x")>>, EmptySig)), VerifyOp(SlotTok(0))>>,
-    <<OpsOp(p), L("create", "keys", <<KOct>>), CNewOp, CSetCbOp(<<CbKey(0), CbAlg("HS256"), Read>>), ForgeOp(0, Good(KOct, "HS256")), VerifyOp(SlotTok(0))>> }
+    <<OpsOp(p), L("create", "keys", <<KOct>>), CNewOp, CSetCbOp(<<CbKey(0), CbAlg("HS256"), Read>>), ForgeOp(0, Good(KOct, "HS256")), VerifyOp(SlotTok(0))>>,
+    \* rejected tokens whose claims the callback rewrites into acceptable ones: the verdict is about the claims
+    \* that were signed, with or without a fault
+    <<OpsOp(p), L("create", "keys", <<KOct>>), CNewOp, CSetKeyOp("HS256", 0),
+      CSetCbOp(<<[k |-> "set", which |-> "clm", v |-> Val("int", "exp", WAdd(T0, WOf(5000)), 1), map |-> 0]>>),
+      ForgeOp(0, [Good(KOct, "HS256") EXCEPT !.pay.m = <<IntM("exp", WSub(T0, WOf(5)))>>]), VerifyOp(SlotTok(0))>>,
+    <<OpsOp(p), L("create", "keys", <<KEcPub>>), CNewOp, CSetKeyOp("none", 0), CClaimSetOp("iss", "me"),
+      CSetCbOp(<<[k |-> "del", which |-> "clm", v |-> Val("int", "nbf", W0, 0), map |-> 0],
+                 [k |-> "set", which |-> "clm", v |-> Val("str", "iss", "me", 1), map |-> 0]>>),
+      ForgeOp(0, [Good(KEcPub, "ES256") EXCEPT !.pay.m = <<StrM("iss", "you"), IntM("nbf", WAdd(T0, WOf(500)))>>]), VerifyOp(SlotTok(0))>> }
 RoundTrip(p) ==
   { <<OpsOp(p), L("create", "keys", <<KEd, KOct>>), BNewOp, BSetKeyOp("none", 0), GenerateOp(0), CNewOp, CSetKeyOp("none", 0), VerifyOp(SlotTok(0))>> }
 Provs == IF Quick THEN {"openssl"} ELSE Providers
